@@ -384,6 +384,9 @@ structure St where
   node : Node := {}
   ost : OSt := {}
   cfgOk : Bool := true
+  /-- handler-level case (`h=1`): statuses are accepted / rejected only, `tick` lets the real
+  1-second poll run -/
+  hmode : Bool := false
 
 def kvNum (ws : List String) (key : String) : Option Nat :=
   (ws.find? (fun w => w.startsWith (key ++ "="))).bind (fun w => (w.drop (key.length + 1)).toString.toNat?)
@@ -396,7 +399,8 @@ def step (st : St) (line : String) : St × String :=
     -- capacities compiled into the implementation come with the case header
     match kvNum rest "mf", kvNum rest "ms", kvNum rest "mr", kvNum rest "ma" with
     | some mf, some ms, some mr, some ma =>
-      ({ prop := st.prop, cfg := { maxFabrics := mf, maxSessions := ms, maxResum := mr, maxAcl := ma } }, "case")
+      ({ prop := st.prop, cfg := { maxFabrics := mf, maxSessions := ms, maxResum := mr, maxAcl := ma },
+         hmode := rest.contains "h=1" }, "case")
     | _, _, _, _ => ({ prop := st.prop, cfgOk := false }, "case")
   | _ =>
     if !st.cfgOk then (st, "BAD case header without capacities") else
@@ -407,8 +411,17 @@ def step (st : St) (line : String) : St × String :=
       match parseView out with
       | none => (st, "BAD output")
       | some v =>
-        let (node', status) := Admin.step st.cfg st.node op
-        let modelOut := s!"{status.render} | {node'.dump}"
+        let (node', status) : Node × Status :=
+          match st.hmode, op with
+          | true, .tick _ =>
+            -- the real poll of the interaction model runs while the time passes
+            let (n1, _) := Admin.step st.cfg st.node op
+            let (n2, _) := Admin.step st.cfg n1 .poll
+            (n2, .ok)
+          | _, _ => Admin.step st.cfg st.node op
+        let statusS : String :=
+          if st.hmode && v.status = "rej" then (if status.accepted then status.render else "rej") else status.render
+        let modelOut := s!"{statusS} | {node'.dump}"
         let (ost', viols) := oracle st.ost op v
         let mine := viols.filter (fun m => m.startsWith st.prop)
         let st' := { st with node := node', ost := ost' }
